@@ -19,7 +19,7 @@ TRUSTED = [
     "bitarray.util.int2ba/ba2int, bitarray slicing/tobytes/frombytes as modelled",
     "extraction (ExtrOcamlBasic only) + Extract/driver.ml",
 ]
-ASSUMES = ["strings are handled as their UTF-8 bytes", "external addresses have length >= 1 (length 0 is a recorded finding)"]
+ASSUMES = ["strings are handled as their UTF-8 bytes", "external addresses have length 0..511"]
 
 
 def gen(ctx):
